@@ -108,6 +108,8 @@ def phase_faults(rep, tier, seed):
                     fired[f"{src}.{k}"] += v
         if kind in ("git", "opt_unknown", "opt_invalid", "opt_inconsistent", "envelope"):
             fired[kind] += 1
+        if cn.get("undecided_runaway"):
+            fired["undecided_runaway"] += 1
         sim_time += r.get("sim_time_us") or 0
         sigs.add((kind, c["entry"], c.get("geometry"), oc, r["outcome"][1],
                   core.digest_of(c["fault"], 6)))
